@@ -11,6 +11,7 @@ import (
 
 	_ "github.com/MichaelMure/git-bug/zzverif/byzsim"
 	_ "github.com/MichaelMure/git-bug/zzverif/repsim"
+	_ "github.com/MichaelMure/git-bug/zzverif/schedsim"
 	"github.com/MichaelMure/git-bug/zzverif/sim"
 )
 
